@@ -26,6 +26,7 @@ fn main() {
         "header" => h_header::header(),
         "hermes_scope" => h_maps::hermes_scope(),
         "index_flatten" => h_maps::index_flatten(),
+        "index_nested" => h_maps::index_nested(),
         "rewrite" => h_maps::rewrite(),
         "hermes_rewrite" => h_maps::hermes_rewrite(),
         "raw_keys" => h_maps::raw_keys(),
